@@ -16,6 +16,9 @@ type testMapper struct {
 	fields map[string]map[string]influxql.DataType // measurement -> field -> type ("" = any measurement)
 	tags   map[string][]string
 	fail   bool
+	// nilEmpty: an empty field or tag-key set is handed out as a nil map (the
+	// usual Go spelling of "none"), not as an allocated empty one
+	nilEmpty bool
 	// tagSets caches the tag-key sets handed out by cachingMapper
 	tagSets map[string]map[string]struct{}
 }
@@ -34,7 +37,53 @@ func (m *testMapper) FieldDimensions(mm *influxql.Measurement) (map[string]influ
 			d[t] = struct{}{}
 		}
 	}
+	if m.nilEmpty {
+		if len(f) == 0 {
+			f = nil
+		}
+		if len(d) == 0 {
+			d = nil
+		}
+	}
 	return f, d, nil
+}
+
+// perMeasurementMapper gives every measurement named in the statement (at any
+// subquery depth) a schema of its own: fields only, tag keys only, both, or
+// nothing; empty sets are nil maps for half of the mappers. Wildcard
+// expansion over several sources then merges sets of every emptiness, in
+// every source order.
+func perMeasurementMapper(rg *mon.Rng, sel *influxql.SelectStatement) *testMapper {
+	m := &testMapper{fields: map[string]map[string]influxql.DataType{}, tags: map[string][]string{}, nilEmpty: rg.Intn(2) == 0}
+	names := refNames(sel)
+	influxql.WalkFunc(sel, func(n influxql.Node) {
+		mm, ok := n.(*influxql.Measurement)
+		if !ok || mm.Name == "" {
+			return
+		}
+		if _, seen := m.fields[mm.Name]; seen {
+			return
+		}
+		m.fields[mm.Name] = map[string]influxql.DataType{}
+		shape := rg.Intn(4)
+		if shape == 0 || shape == 2 {
+			m.fields[mm.Name]["pf"+mm.Name] = allTypes[rg.Intn(len(allTypes))]
+			for _, nm := range names {
+				if rg.Intn(2) == 0 {
+					m.fields[mm.Name][nm] = allTypes[rg.Intn(len(allTypes))]
+				}
+			}
+		}
+		if shape == 1 || shape == 2 {
+			m.tags[mm.Name] = append(m.tags[mm.Name], "pt"+mm.Name)
+			for _, nm := range names {
+				if rg.Intn(3) == 0 {
+					m.tags[mm.Name] = append(m.tags[mm.Name], nm)
+				}
+			}
+		}
+	})
+	return m
 }
 
 func (m *testMapper) MapType(mm *influxql.Measurement, field string) influxql.DataType {
@@ -245,19 +294,23 @@ var Ops = []Op{
 			return nil
 		}
 		var m *testMapper
-		switch rg.Intn(4) {
+		switch rg.Intn(6) {
 		case 0:
 			m = &testMapper{}
 		case 1:
 			m = &testMapper{fail: true}
+		case 2, 3:
+			m = perMeasurementMapper(rg, sel)
 		default:
 			m = randomMapper(rg, refNames(sel))
 		}
+		// the exported merge of the sources' schemas, then the expansion
+		ff, dd, ferr := influxql.FieldDimensions(sel.Sources, m)
 		o, err := sel.RewriteFields(m)
 		if err != nil {
-			return err.Error()
+			return fmt.Sprint(len(ff), len(dd), ferr) + err.Error()
 		}
-		return o.String()
+		return fmt.Sprint(len(ff), len(dd), ferr) + o.String()
 	}},
 	{"SelectStatement.Reduce", false, func(st influxql.Statement, rg *mon.Rng) interface{} {
 		_, _, _, sel := stmtParts(st)
@@ -484,11 +537,13 @@ var seqSteps = []struct {
 	}},
 	{"RewriteFields", func(s *influxql.SelectStatement, rg *mon.Rng) (*influxql.SelectStatement, string) {
 		m := randomMapper(rg, refNames(s))
-		switch rg.Intn(4) {
+		switch rg.Intn(6) {
 		case 0:
 			m.tags = map[string][]string{} // a schema without tag keys
 		case 1:
 			m = &testMapper{} // an empty schema
+		case 2, 3:
+			m = perMeasurementMapper(rg, s) // a schema per measurement, empty sets as nil maps
 		}
 		o, err := s.RewriteFields(m)
 		if err != nil || o == nil {
